@@ -224,8 +224,14 @@ def regenerate_unit(unit):
         ok, msg = True, None
     else:
         why = (p.stderr or p.stdout)[-800:].replace("-/", "- /")
-        files = {unit + ".lean": "/- the translator gave up on today's source:\n%s\n-/\nnamespace CM.Generated.%s\n"
-                                 "theorem translation_failed : False := by decide\nend CM.Generated.%s\n" % (why, unit, unit)}
+        stub = ("/- the translator gave up on today's source:\n%s\n-/\nnamespace CM.Generated.%s\n"
+                "theorem translation_failed : False := by decide\nend CM.Generated.%s\n" % (why, unit, unit))
+        # EVERY module of the unit is invalidated (the tie proofs import the per-function modules directly)
+        files = {unit + ".lean": stub}
+        if os.path.isdir(os.path.join(gdir, unit)):
+            for fn in os.listdir(os.path.join(gdir, unit)):
+                if fn.endswith(".lean"):
+                    files[os.path.join(unit, fn)] = stub
         ok, msg = False, "translator gotrans %s failed: %s" % (unit, why)
     changed = 0
     with Lock("lake"):
